@@ -40,7 +40,7 @@ def _lookup_key(text):
     return None
 
 
-@rule("C13.lookup-order", ["C13"],
+@rule("C13.lookup-order", ["C13", "C05", "C06", "C07", "C08"],
       "every C lookup of the trait governing a name consults the instance "
       "traits first, then the class traits, and a prefix trait only when "
       "both missed")
@@ -397,7 +397,7 @@ class SortFlow(PyFlow):
                       "shorter wildcard could shadow a longer one")
 
 
-@rule("C13.prefix-sorted", ["C13"],
+@rule("C13.prefix-sorted", ["C13", "C01"],
       "the wildcard prefix list is kept longest-first and matched in order "
       "(longest matching prefix wins)")
 def prefix_sorted(ctx, res):
@@ -720,7 +720,7 @@ MUTATING_TRAIT_METHODS = {"set_default_value", "set_validate", "delegate",
                           "property", "clone"}
 
 
-@rule("C10.clone-before-mutate", ["C10", "C08"],
+@rule("C10.clone-before-mutate", ["C10", "C08", "C02"],
       "a CTrait taken from a shared (class-level) dictionary is cloned before "
       "its notifiers are extended")
 def clone_before_mutate(ctx, res):
